@@ -222,6 +222,7 @@ def run_impl(case) -> Dict[str, Any]:
         "recorded_includes": list(r["includes"]),
         "recorded_libs": list(r["link_libraries"]),
         "rendered": incs is not None and libs is not None,
+        "_files": {k: v for k, v in r["files"].items() if k in ("query.cxx", "query.h", "Analyzer.cc")},
     }
     return out
 
@@ -471,6 +472,74 @@ def judge_jobs(ctx, stream: str, cases: List[Dict[str, Any]], report: bool = Tru
         if mi != ii and report:
             ctx.disagreement("job", {"backend": c["backend"], "query": src, "case": c}, m if "err" in m else mi, ({"rejected": im.get("error"), "message": im.get("message")} if im.get("rejected") else ii))
         rec["agree"] = mi == ii
+    return out
+
+
+# ----------------------------------------------------------------------------------------- executed artefact (g++, mock event store)
+
+
+def declared_types(ctx, case) -> Dict[str, Tuple[str, Optional[str]]]:
+    """name -> (container type, element type | None) as DECLARED (built-in rows read from the source,
+    then the metadata; of several declarations of a name the first written is in force)."""
+    t: Dict[str, Tuple[str, Optional[str]]] = {r["name"]: (r["container"], r["element"]) for r in ctx.c06_data["backends"][case["backend"]]["rows"]}
+    for md in reversed(case["mds"]):
+        t[md["name"]] = (md["container_type"], md.get("element_type") if md.get("contains_collection") else None)
+    return t
+
+
+def exec_stream(ctx, cases: List[Dict[str, Any]], report: bool = True) -> List[Dict[str, Any]]:
+    """Compile the rendered job against the mock event store, run one event (all banks present;
+    ATLAS also: one bank missing) and evaluate ExecSpec on the log."""
+    from c06_lib import cppmock
+
+    jobs = []
+    for c in cases:
+        im = run_impl(c)
+        if im.get("rejected"):
+            continue
+        decl = declared_types(ctx, c)
+        us = [u for u, _ in uses_of(c)]
+        wanted = [[decl[u["name"]][0], u["args"][0]["s"]] for u in us]
+        types = sorted({decl[u["name"]] for u in us}, key=lambda x: (x[0], x[1] or ""))
+        fails_list: List[List[str]] = [[]]
+        if c["backend"] == "atlas":
+            fails_list.append([ctx.rng.choice(us)["args"][0]["s"]])
+        for fails in fails_list:
+            if any(("\n" in b or "|" in b or "\x1f" in b) for _, b in wanted):
+                continue
+            r = cppmock.run_job(c["backend"], im["_files"], im["includes"], _FIXED.get(c["backend"], []), types, fails)
+            jobs.append((c, wanted, fails, r))
+    reqs = []
+    for c, wanted, fails, r in jobs:
+        rq = [l.split("|") for l in r["log"] if l.startswith("REQUEST|")]
+        ex = [l for l in r["log"] if l.startswith("EXECUTE|")]
+        reqs.append({"op": "exec", "wanted": wanted, "fails": fails, "reqs": [[x[1], "|".join(x[2:-1]), x[-1] == "ok"] for x in rq],
+                     "success": ex == ["EXECUTE|SUCCESS"], "crashed": (not r["compiled"]) or r["rc"] != 0 or len(ex) != 1})
+    ans = ctx.driver(DRIVER, reqs)
+    out = []
+    for (c, wanted, fails, r), q, a in zip(jobs, reqs, ans):
+        if "bad" in a:
+            continue
+        cons = [l.split("|")[1:] for l in r["log"] if l.startswith("CONSUMES|")]
+        tok_ok = c["backend"] != "cms_miniaod" or sorted(cons) == sorted(wanted)
+        ok = bool(a.get("holds")) and tok_ok
+        out.append({"case": c, "ok": ok, "fails": fails, "run": r, "expected": a.get("expected")})
+        if report:
+            ctx.count("stream:executed")
+            ctx.count("executed:" + ("bank-missing" if fails else "all-present"))
+            if not r["compiled"]:
+                ctx.count("executed:did-not-compile")
+            ctx.case("exec:" + case_key(c) + "|" + repr(fails), True, None)
+            if not ok:
+                ctx.violation(
+                    key="exec:" + case_key(c) + "|missing=" + repr(fails),
+                    what="the compiled job does not ask the (mock) event store for exactly the requested (container type, bank) pairs / does not end the event at the missing bank"
+                    + ("" if tok_ok else "; tokens are not initialised with the banks of their uses")
+                    + ("" if r["compiled"] else "; the rendered job does not compile against the declared data model: " + r["stderr"][-300:]),
+                    case={**c, "missing_banks": fails},
+                    observed={"query": query_src(c), "log": r["log"][:40], "rc": r["rc"], "expected_requests": a.get("expected"), "consumes": cons},
+                    how="./check C06 --replay <this file> (g++ is needed)",
+                )
     return out
 
 
@@ -743,6 +812,17 @@ def run(ctx):
         cases.append(gen_case(ctx, ctx.rng, error=err))
     for k in range(0, len(cases), 1500):
         judge_jobs(ctx, "random", cases[k : k + 1500])
+        ctx.check_time()
+    if ctx.tier == "thorough":
+        # executed-artefact oracle: clean-domain jobs only (faulty ones are refused before any code exists)
+        sample = [c for c in systematic_cases(ctx) if len(c["items"]) == 1][:16]
+        k = 0
+        while len(sample) < 60 and k < len(cases):
+            c = cases[k]
+            k += 1
+            if all(flt_ok for flt_ok in [True]) and not any(a for u, _ in uses_of(c) for a in u["args"] if "s" not in a) and len(u_ := uses_of(c)) == len([1 for u, _ in u_ if len(u["args"]) == 1]):
+                sample.append(c)
+        exec_stream(ctx, sample)
         ctx.check_time()
     ctx.extra_cov["exhaustive"] = False
     ctx.extra_cov["exhaustive_part"] = (
